@@ -31,6 +31,7 @@ type LoopContract struct {
 	Invariants []*Clause
 	Decreases  *Clause
 	Modifies   []*Clause // extra havoc targets
+	Steps      []*Clause // per-iteration postconditions; iter(e) is e at the start of the iteration
 }
 
 type ParamDecl struct {
@@ -44,6 +45,7 @@ type Contract struct {
 	Requires []*Clause
 	Ensures  []*Clause
 	Modifies []*Clause
+	ExitAsserts []*Clause // checked at every return with the function's locals in scope; not visible to callers
 	Loops    map[int]*LoopContract
 	Ghost    []ParamDecl // ghost result variables
 	Trusted  bool        // extern / assumed
@@ -84,6 +86,12 @@ type GlobalInv struct {
 	Pkg    *packages.Package
 }
 
+type ObjInv struct {
+	Elem   string
+	Clause *Clause
+	Pkg    *packages.Package
+}
+
 type Axiom struct {
 	Name string
 	Body CExpr
@@ -106,15 +114,33 @@ type World struct {
 	FuncPkg   map[string]*packages.Package
 	FuncObj   map[string]*types.Func
 	NoOps     map[string]bool // functions treated as no-ops (logging)
+	NoReturn  map[string]bool // functions that terminate the process (log.Fatal)
 	Problems  []string
 	RepoDir   string
+	GhostPkg  *types.Package
+	ChanInvs  map[string]*ObjInv // by global variable full name (pkgpath.name)
+	PoolInvs  map[string]*ObjInv
+	Intrinsics map[string][]string
 }
 
 func loadWorld(repo string, verifDir string) (*World, error) {
 	w := &World{Pkgs: map[string]*packages.Package{}, AllPkgs: map[string]*packages.Package{}, Reg: newRegistry(), Contracts: map[string]*Contract{}, Macros: map[string]*Macro{}, Uninterps: map[string]*Uninterp{},
-		FuncDecls: map[string]*ast.FuncDecl{}, FuncPkg: map[string]*packages.Package{}, FuncObj: map[string]*types.Func{}, NoOps: map[string]bool{}, RepoDir: repo}
+		FuncDecls: map[string]*ast.FuncDecl{}, FuncPkg: map[string]*packages.Package{}, FuncObj: map[string]*types.Func{}, NoOps: map[string]bool{}, NoReturn: map[string]bool{}, RepoDir: repo}
 	fset := token.NewFileSet()
 	w.Fset = fset
+	w.Intrinsics = map[string][]string{}
+	w.ChanInvs = map[string]*ObjInv{}
+	w.PoolInvs = map[string]*ObjInv{}
+	// ghost package: types that exist only in specifications
+	gp := types.NewPackage("ghost", "ghost")
+	strm := types.NewStruct([]*types.Var{
+		types.NewField(token.NoPos, gp, "D", types.NewSlice(types.Typ[types.Uint8]), false),
+		types.NewField(token.NoPos, gp, "Pos", types.Typ[types.Int], false)}, nil)
+	tn := types.NewTypeName(token.NoPos, gp, "Stream", nil)
+	types.NewNamed(tn, strm, nil)
+	gp.Scope().Insert(tn)
+	gp.MarkComplete()
+	w.GhostPkg = gp
 	cfg := &packages.Config{
 		Mode:       packages.NeedName | packages.NeedFiles | packages.NeedSyntax | packages.NeedTypes | packages.NeedTypesInfo | packages.NeedImports | packages.NeedDeps | packages.NeedCompiledGoFiles,
 		Dir:        repo,
@@ -206,6 +232,21 @@ func loadWorld(repo string, verifDir string) (*World, error) {
 					return nil, fmt.Errorf("%s: %v", d.src, err)
 				}
 			}
+			if d.kw == "typeas" {
+				fs := strings.Fields(d.text)
+				if len(fs) != 2 {
+					return nil, fmt.Errorf("%s: expected: typeas Type ModelType", d.src)
+				}
+				it, err := w.resolveType(fs[0], f.pkg)
+				if err != nil {
+					return nil, fmt.Errorf("%s: %v", d.src, err)
+				}
+				mt, err := w.resolveType(fs[1], f.pkg)
+				if err != nil {
+					return nil, fmt.Errorf("%s: %v", d.src, err)
+				}
+				w.Reg.typeAs[w.Reg.typeKey(it)] = mt
+			}
 			if d.kw == "ifaceas" {
 				if err := w.addIfaceAs(d, f.pkg); err != nil {
 					return nil, fmt.Errorf("%s: %v", d.src, err)
@@ -228,8 +269,8 @@ type rawDirective struct {
 	sub  []rawDirective
 }
 
-var topKeywords = map[string]bool{"ghost": true, "pred": true, "spec": true, "uninterp": true, "axiom": true, "lemma": true, "func": true, "noop": true, "ifaceas": true, "extern": true, "globalinv": true}
-var subKeywords = map[string]bool{"requires": true, "ensures": true, "modifies": true, "loop": true, "invariant": true, "decreases": true, "trusted": true, "pure": true, "ghostout": true, "opt": true, "params": true, "results": true, "havoc": true}
+var topKeywords = map[string]bool{"ghost": true, "pred": true, "spec": true, "uninterp": true, "axiom": true, "lemma": true, "func": true, "noop": true, "ifaceas": true, "extern": true, "globalinv": true, "intrinsic": true, "typeas": true, "chaninv": true, "poolinv": true, "noreturn": true}
+var subKeywords = map[string]bool{"requires": true, "ensures": true, "modifies": true, "loop": true, "invariant": true, "decreases": true, "trusted": true, "pure": true, "ghostout": true, "opt": true, "params": true, "results": true, "havoc": true, "step": true, "exitassert": true}
 
 func readDirectives(path string) ([]rawDirective, error) {
 	f, err := os.Open(path)
@@ -311,6 +352,9 @@ func (w *World) findPkgByName(name string, pkg *packages.Package) *types.Package
 				return imp.Types
 			}
 		}
+	}
+	if name == "ghost" {
+		return w.GhostPkg
 	}
 	var cands []string
 	for path, p := range w.AllPkgs {
@@ -540,7 +584,36 @@ func (w *World) addDirectives(ds []rawDirective, pkg *packages.Package) error {
 	for _, d := range ds {
 		var err error
 		switch d.kw {
-		case "ghost", "ifaceas":
+		case "ghost", "ifaceas", "typeas":
+		case "chaninv", "poolinv":
+			i := strings.Index(d.text, ":")
+			hd := strings.Fields(d.text[:i])
+			if i < 0 || len(hd) != 2 {
+				err = fmt.Errorf("expected: %s <global> <elem>: expr", d.kw)
+				break
+			}
+			body, e := parseCExpr(d.text[i+1:])
+			if e != nil {
+				err = e
+				break
+			}
+			oi := &ObjInv{Elem: hd[1], Clause: &Clause{Kind: d.kw, Text: strings.TrimSpace(d.text[i+1:]), Expr: body, Src: d.src}, Pkg: pkg}
+			key := hd[0]
+			if pkg != nil && !strings.Contains(key, ".") {
+				key = pkg.PkgPath + "." + key
+			}
+			if d.kw == "chaninv" {
+				w.ChanInvs[key] = oi
+			} else {
+				w.PoolInvs[key] = oi
+			}
+		case "intrinsic":
+			fs := strings.Fields(d.text)
+			if len(fs) < 2 {
+				err = fmt.Errorf("expected: intrinsic <func> <kind> args...")
+				break
+			}
+			w.Intrinsics[w.funcKey(fs[0], pkg)] = fs[1:]
 		case "globalinv":
 			body, e := parseCExpr(d.text)
 			if e != nil {
@@ -551,6 +624,10 @@ func (w *World) addDirectives(ds []rawDirective, pkg *packages.Package) error {
 		case "noop":
 			for _, f := range strings.Fields(d.text) {
 				w.NoOps[f] = true
+			}
+		case "noreturn":
+			for _, f := range strings.Fields(d.text) {
+				w.NoReturn[f] = true
 			}
 		case "pred", "spec":
 			name, params, after, e := splitHeader(d.text)
@@ -690,6 +767,21 @@ func (w *World) addDirectives(ds []rawDirective, pkg *packages.Package) error {
 						return e
 					}
 					curLoop.Invariants = append(curLoop.Invariants, cl)
+				case "step":
+					if curLoop == nil {
+						return fmt.Errorf("%s: step outside loop", s.src)
+					}
+					cl, e := mk()
+					if e != nil {
+						return e
+					}
+					curLoop.Steps = append(curLoop.Steps, cl)
+				case "exitassert":
+					cl, e := mk()
+					if e != nil {
+						return e
+					}
+					c.ExitAsserts = append(c.ExitAsserts, cl)
 				case "decreases":
 					if curLoop == nil {
 						return fmt.Errorf("%s: decreases outside loop", s.src)
